@@ -24,11 +24,33 @@ class _Return(Exception):
 
 class VennInterp:
     def __init__(self, func: ast.FunctionDef, env: dict[str, int], universe: int,
-                 truthy_calls: Callable[[ast.Call], Optional[bool]]) -> None:
+                 truthy_calls: Callable[[ast.Call], Optional[bool]],
+                 helpers: Optional[dict[str, ast.FunctionDef]] = None) -> None:
         self.func = func
         self.env = dict(env)
         self.U = universe
         self.truthy_calls = truthy_calls
+        self.helpers = helpers or {}
+
+    def _pure_helper(self, call: ast.Call) -> Optional[int]:
+        """self.h(args) where h is a method of the same class whose body is one
+        `return <set expression>`: the expression with the parameters bound to the arguments."""
+        f = call.func
+        if not (isinstance(f, ast.Attribute) and isinstance(f.value, ast.Name)
+                and f.value.id == 'self' and f.attr in self.helpers and not call.keywords):
+            return None
+        h = self.helpers[f.attr]
+        body = [b for b in h.body if not (isinstance(b, ast.Expr)
+                                          and isinstance(b.value, ast.Constant))]
+        params = [a.arg for a in h.args.posonlyargs + h.args.args][1:]
+        if len(body) != 1 or not isinstance(body[0], ast.Return) or body[0].value is None \
+                or len(params) != len(call.args):
+            return None
+        env = dict(self.env)
+        for p_, a in zip(params, call.args):
+            env[p_] = self.ev(a)
+        sub = VennInterp(h, env, self.U, self.truthy_calls, self.helpers)
+        return sub.ev(body[0].value)
 
     # --- expressions -------------------------------------------------------------------
     def ev(self, e: ast.AST) -> int:
@@ -48,6 +70,9 @@ class VennInterp:
             if isinstance(e.op, ast.BitXor):
                 return a ^ b
         if isinstance(e, ast.Call):
+            hv = self._pure_helper(e)
+            if hv is not None:
+                return hv
             d = dotted(e.func)
             if d.split('.')[-1] == 'UnicodeSubset':
                 if not e.args:
